@@ -596,6 +596,10 @@ func runC13(ctx *h.Ctx) int {
 		name := g.Name("CONST_")
 		c1 := &spec.Const{ID: prog.NewID(), Name: name, Value: constValuePool[k.R.IntN(len(constValuePool))]}
 		c2 := &spec.Const{ID: prog.NewID(), Name: name, Value: constValuePool[k.R.IntN(len(constValuePool))]}
+		if k.R.IntN(4) == 0 {
+			c2.Value = c1.Value // the same value again is a redefinition all the same
+			k.Count("redefinitions_with_the_same_value", 1)
+		}
 		i1 := k.R.IntN(len(prog.Items) + 1)
 		items := append([]spec.Item{}, prog.Items[:i1]...)
 		items = append(items, c1)
